@@ -116,10 +116,19 @@ func RunBinary(dir string, flags []string, env []string, patterns ...string) *Pr
 }
 
 func RunBinaryWith(bin, dir string, flags []string, env []string, patterns ...string) *ProcResult {
+	return runBinaryWith(bin, dir, 120*time.Second, flags, env, patterns...)
+}
+
+// RunBinaryTimeout is RunBinary with an explicit time limit.
+func RunBinaryTimeout(dir string, limit time.Duration, flags []string, env []string, patterns ...string) *ProcResult {
+	return runBinaryWith(BinPath(), dir, limit, flags, env, patterns...)
+}
+
+func runBinaryWith(bin, dir string, limit time.Duration, flags []string, env []string, patterns ...string) *ProcResult {
 	args := append([]string{}, flags...)
 	args = append(args, "-json")
 	args = append(args, patterns...)
-	pr := run(dir, 120*time.Second, env, bin, args...)
+	pr := run(dir, limit, env, bin, args...)
 	if c := crashText(pr.Stderr + pr.Stdout); c != "" {
 		pr.Panics = append(pr.Panics, c)
 	}
